@@ -18,6 +18,18 @@ TEXT = {
         "technique": "Coq proof + regenerated tables + differential correspondence",
         "design_ref": "DESIGN.md section 4 C17",
     },
+    "C06": {
+        "level": "Theorems in Coq (Props/C06.v) for ALL pairs of terms satisfying the representation invariant of hash sets (set_ok): term_eqb (model of `impl PartialEq`, driven by eq kinds regenerated from the source) holds exactly when the independent inductive specification sem_eq does (same constructor, equal names/numbers, ordered parts pairwise, set parts mutually included, symmetric statements either way) at every nesting depth; it is reflexive, symmetric and transitive; it is invariant under any permutation of every set payload on both sides (C06_order_stable: any construction history / hasher seed) and under insertion order and duplicates of repeated insert (C06_mk_set_ok, C06_dup_stable). Table obligation eq_tables_ok is re-proved by computation on every regeneration. Correspondence: pairs built along different insertion orders with duplicates in fresh HashSets, perturbed pairs, two parses of the same string; real == vs term_eqb, set_ok of every implementation value; the property itself (canonical-form reference, symmetry, stability under rebuilding) on the real code.",
+        "note": "Trusted: Coq kernel; translator T4; HashSet as a mathematical set for lawful Hash/Eq (lawfulness of Term's Hash is C07); hand-written skeleton tied by correspondence.",
+        "technique": "Coq proof (sound+complete wrt inductive spec, equivalence, permutation invariance) + regenerated eq table + differential correspondence",
+        "design_ref": "DESIGN.md section 4 C06",
+    },
+    "C07": {
+        "level": "Theorems in Coq (Props/C07.v): for EVERY function fixed_hash and all set_ok terms a, b: term_eqb a b = true implies the write streams term_feed a and term_feed b are identical (C07_eq_feed), hence equal hashes under any hasher (C07_eq_hash) and successful lookup of an equal key (C07_set_lookup). The table obligation hash_respects_eq (set constructors and symmetric statements hash order-independently) is re-proved by computation on every regeneration from `impl Hash for Term` -- on the pre-fix tree it is false. Correspondence: the real write stream captured by a recording Hasher vs term_feed with an oracle of real DefaultHasher values; on the real code: equal pairs under fresh RandomStates, HashSet::contains, HashMap::get.",
+        "note": "Trusted: Coq kernel; translator T4 (hash arms, helper bodies verbatim); std Hash impls of String/usize as recorded; wrapping u64 addition modelled as addition mod 2^64.",
+        "technique": "Coq proof over abstract hasher + regenerated hash table + recorded-write-stream correspondence",
+        "design_ref": "DESIGN.md section 4 C07",
+    },
 }
 PENDING = "check not built yet in this session; the property is within reach of the technique (see DESIGN.md section 4) and will be claimed once its model, theorems and correspondence stream exist"
 NOT_APPLICABLE = {f"C{i:02d}": PENDING for i in range(1, 18)}
